@@ -90,7 +90,7 @@ def _gc(mirroot, keep, max_keep=6):
 
 def _dump(files, flavours, outdir, verbose):
     # fixed path (we hold the lock): keeps cargo's fingerprint stable so the target dir does not grow
-    scratch = os.path.join(tempfile.gettempdir(), "mirsym-src-%d" % os.getuid())
+    scratch = os.path.join(tempfile.gettempdir(), "mirsym-src-%d-%s" % (os.getuid(), hashlib.sha1(BUILD.encode()).hexdigest()[:8]))
     shutil.rmtree(scratch, ignore_errors=True)
     os.makedirs(scratch)
     try:
